@@ -1448,11 +1448,113 @@ fn gen_nonnull_offset_case(rng: &mut Rng) -> (String, String) {
     )
 }
 
+/// Directed UTF-8 cases: multi-byte content, the WHOLE values buffer valid UTF-8, and exactly one
+/// visible offset moved into the middle of a code point (first visible / middle / last visible
+/// offset; first offset != 0; array offset > 0), or an invalid byte only in the unreferenced
+/// prefix / suffix of the values buffer.  At the root or nested under list / struct / dictionary.
+fn gen_utf8_case(rng: &mut Rng) -> (String, String) {
+    const MB: [&str; 3] = ["\u{e9}", "\u{20ac}", "\u{1f640}"];
+    let large = rng.chance(1, 3);
+    let w = if large { 8 } else { 4 };
+    let n = 1 + rng.usize(5);
+    let off = if rng.bool() { 0 } else { 1 + rng.usize(3) };
+    let total = off + n;
+    let mut data: Vec<u8> = vec![];
+    let npre = if rng.chance(3, 4) { 1 + rng.usize(2) } else { 0 };
+    for _ in 0..npre {
+        data.extend_from_slice(rng.pick(&MB).as_bytes());
+    }
+    let mut offs_v: Vec<i64> = vec![data.len() as i64];
+    for _ in 0..total {
+        let k = 1 + rng.usize(3);
+        for j in 0..k {
+            if j == 1 && k == 3 && rng.bool() {
+                data.push(b'a');
+            } else {
+                data.extend_from_slice(rng.pick(&MB).as_bytes());
+            }
+        }
+        offs_v.push(data.len() as i64);
+    }
+    let nsuf = if rng.chance(3, 4) { 1 + rng.usize(2) } else { 0 };
+    for _ in 0..nsuf {
+        data.extend_from_slice(rng.pick(&MB).as_bytes());
+    }
+    let (first, last) = (offs_v[off] as usize, offs_v[total] as usize);
+    let mut variant = rng.below(10);
+    if variant == 1 && first == 0 { variant = 2; }
+    if (variant == 5 || variant == 7) && first == 0 { variant = 2; }
+    if variant == 6 && last == data.len() { variant = 4; }
+    let mut tag = String::new();
+    let mut split = |offs_v: &mut Vec<i64>, i: usize, up: bool, data_len: usize| -> bool {
+        let v = offs_v[i] + if up { 1 } else { -1 };
+        if v < 0 || v as usize > data_len { return false; }
+        offs_v[i] = v;
+        true
+    };
+    match variant {
+        0 => tag.push_str("u8:none valid"),
+        1 => { split(&mut offs_v, off, false, data.len()); tag.push_str("u8:split pos:first dir:down"); }
+        2 | 8 => { split(&mut offs_v, off, true, data.len()); tag.push_str("u8:split pos:first dir:up"); }
+        3 => {
+            if n >= 2 {
+                let i = off + 1 + rng.usize(n - 1);
+                let up = rng.bool();
+                split(&mut offs_v, i, up, data.len());
+                tag.push_str("u8:split pos:mid");
+            } else {
+                split(&mut offs_v, off, true, data.len());
+                tag.push_str("u8:split pos:first dir:up");
+            }
+        }
+        4 | 9 => {
+            let up = nsuf > 0 && rng.bool();
+            split(&mut offs_v, total, up, data.len());
+            tag.push_str(if up { "u8:split pos:last dir:up" } else { "u8:split pos:last dir:down" });
+        }
+        5 => { let at = rng.usize(first); data[at] = 0xff; tag.push_str("u8:bad-prefix valid"); }
+        6 => { let at = last + rng.usize(data.len() - last); data[at] = 0xff; tag.push_str("u8:bad-suffix valid"); }
+        _ => {
+            let at = rng.usize(first);
+            data[at] = 0xff;
+            split(&mut offs_v, off, true, data.len());
+            tag.push_str("u8:bad-prefix+split pos:first");
+        }
+    }
+    let mut offs = vec![];
+    for v in &offs_v {
+        put_int(*v, w, &mut offs);
+    }
+    let nulls = if rng.chance(1, 3) { Some(rng.bytes((total + 7) / 8)) } else { None };
+    let u = Phys { ty: Ty::Utf8(large), len: n, offset: off, nulls, nc: None, bufs: vec![offs, data], kids: vec![] };
+    let (p, nest) = match rng.below(6) {
+        0 => {
+            let mut lo = vec![];
+            put_int(0, 4, &mut lo);
+            put_int(n as i64, 4, &mut lo);
+            (Phys { ty: Ty::List(false, Box::new(Ty::Utf8(large)), true), len: 1, offset: 0, nulls: None, nc: None, bufs: vec![lo], kids: vec![u] }, "list")
+        }
+        1 => (Phys { ty: Ty::Struct(vec![(true, Ty::Utf8(large))]), len: n, offset: 0, nulls: None, nc: None, bufs: vec![], kids: vec![u] }, "struct"),
+        2 => {
+            let m = 1 + rng.usize(4);
+            let keys: Vec<u8> = (0..m).map(|_| rng.usize(n) as u8).collect();
+            (Phys { ty: Ty::Dict(1, true, Box::new(Ty::Utf8(large))), len: m, offset: 0, nulls: None, nc: None, bufs: vec![keys], kids: vec![u] }, "dict")
+        }
+        _ => (u, "root"),
+    };
+    let op = if rng.chance(1, 3) { "full" } else { "trynew" };
+    (
+        format!("C09 {} {}", op, show_phys(&p)),
+        format!("type:utf8 directed-utf8 {} nest:{} {} {} nt op:{}", tag, nest, if off > 0 { "off>0" } else { "" }, if first != 0 { "first-offset-nonzero" } else { "" }, op),
+    )
+}
+
 fn gen_case(rng: &mut Rng) -> (String, String) {
     match rng.below(20) {
         0 => if rng.bool() { gen_align_case(rng) } else { gen_nonnull_offset_case(rng) },
         1 | 2 => gen_batch_case(rng),
         3..=6 => gen_typed_case(rng),
+        7..=9 => gen_utf8_case(rng),
         _ => gen_layout_case(rng),
     }
 }
